@@ -13,7 +13,6 @@ import (
 
 type (
 	Map    = sync.Map
-	Pool   = sync.Pool
 	Locker = sync.Locker
 )
 
@@ -263,4 +262,38 @@ func (c *Cond) Broadcast() {
 	if s := mc.Active(); s != nil {
 		s.Unblock(c)
 	}
+}
+
+// Pool is a deterministic stand-in for sync.Pool: last in, first out, nothing
+// is ever dropped. (sync.Pool may hand back any object that was Put, so this is
+// one of its legal behaviours - the one that makes an object Put twice come
+// back twice, on every run.)
+type Pool struct {
+	New   func() any
+	mu    sync.Mutex
+	items []any
+}
+
+func (p *Pool) Get() any {
+	p.mu.Lock()
+	if n := len(p.items); n > 0 {
+		x := p.items[n-1]
+		p.items = p.items[:n-1]
+		p.mu.Unlock()
+		return x
+	}
+	p.mu.Unlock()
+	if p.New != nil {
+		return p.New()
+	}
+	return nil
+}
+
+func (p *Pool) Put(x any) {
+	if x == nil {
+		return
+	}
+	p.mu.Lock()
+	p.items = append(p.items, x)
+	p.mu.Unlock()
 }
